@@ -12,6 +12,7 @@ from .. import AnalysisError
 from ..core import Ctx, Report
 from ..decoders import Case, Decoders, simplify, canon_tree, canon_value, canon_cond, reads_in, tree_of, NONE
 from ..model import norm
+from ..astutil import call_chain
 from ..tables import Tables, Row, Opaque
 from .c14 import tables_ctx, decoders_ctx
 
@@ -27,6 +28,7 @@ EXPLANATION = (
     "computed powers are round(voltage x current) of the like-numbered rows, and a formula documented in the comment above a row "
     "equals the getter after substituting the rows' own decoders. Label texts and the thresholds of read_grid_mode are not decided."
     ' (R4, shared with C12.R2) Sensor.read positions at its own offset and decodes, on every path: raw and derived values of one result come from the same positions of the same buffer.'
+    ' (R5) read_runtime_data returns what _map_response decoded from this call\'s responses: no item of the result is assigned, deleted, defaulted or merged from anything else afterwards.'
 )
 
 LABEL_CLASSES = ("Enum", "EnumH", "EnumL", "Enum2", "EnumBitmap4", "EnumCalculated")
@@ -67,6 +69,66 @@ def check(ctx: Ctx, rep: Report):
         r2_rows(ctx, rep, dec, famname, attr, rows, by_id)
         r3(ctx, rep, dec, tabs, famname, attr, rows, by_id)
     r2_bitmap_fn(ctx, rep)
+    rep.rule("C13.R5", "what read_runtime_data returns is what _map_response decoded from the responses of this call: the result is never patched afterwards (values of an earlier read, defaults, corrections)", 3)
+    result_integrity(ctx, rep, "C13.R5")
+
+
+def result_integrity(ctx, rep, rule: str):
+    """read_runtime_data of ET / DT / ES (helpers outside the inventory included): the returned dictionary is bound to a
+    _map_response(...) result and only ever extended by .update(<_map_response result>) / |= of one; no item is
+    assigned, deleted or defaulted afterwards - raw, derived and label values of one result all come from the same
+    responses."""
+    from ..astutil import calls_through_helpers, walk_no_lambda
+    prog = ctx.prog
+    MUT = {"pop", "popitem", "setdefault", "clear", "__setitem__", "__delitem__"}
+
+    def is_map(e, local_maps, ci=None, depth=0):
+        if isinstance(e, ast.Await):
+            e = e.value
+        if isinstance(e, ast.Call) and (call_chain(e) or ("",))[-1] == "_map_response":
+            return True
+        if isinstance(e, ast.Dict) and not e.keys:
+            return True                       # nothing decoded (a block that was switched off)
+        if isinstance(e, ast.Call) and ci is not None and depth < 3:
+            # a private per-block helper: every value it returns is a _map_response result, {} or such a helper's result
+            c = call_chain(e)
+            m = prog.find_method(ci, c[1]) if c and len(c) == 2 and c[0] == "self" else None
+            if m is not None:
+                lm = {n.targets[0].id for n in ast.walk(m.node) if isinstance(n, ast.Assign) and len(n.targets) == 1 and isinstance(n.targets[0], ast.Name)
+                      and is_map(n.value, set(), ci, depth + 1)}
+                rets = [n for n in ast.walk(m.node) if isinstance(n, ast.Return)]
+                return bool(rets) and all(r.value is not None and is_map(r.value, lm, ci, depth + 1) for r in rets)
+        return isinstance(e, ast.Name) and e.id in local_maps
+
+    for famname in ("ET", "DT", "ES"):
+        ci_ = prog.cls(famname)
+        fn = ci_.methods.get("read_runtime_data")
+        if fn is None:
+            raise AnalysisError("%s.read_runtime_data not found" % famname)
+        results = {n.value.id for n in ast.walk(fn.node) if isinstance(n, ast.Return) and isinstance(n.value, ast.Name)}
+        local_maps = {n.targets[0].id for n in ast.walk(fn.node) if isinstance(n, ast.Assign) and len(n.targets) == 1 and isinstance(n.targets[0], ast.Name)
+                      and is_map(n.value, set(), ci_)}
+        bad = None
+        for n in walk_no_lambda(fn.node):
+            if isinstance(n, (ast.Assign, ast.AugAssign, ast.AnnAssign)):
+                tgts = n.targets if isinstance(n, ast.Assign) else [n.target]
+                for t in tgts:
+                    if isinstance(t, ast.Subscript) and isinstance(t.value, ast.Name) and t.value.id in results and bad is None:
+                        bad = (n, "assigns %s" % norm(t))
+                if isinstance(n, ast.AugAssign) and isinstance(n.target, ast.Name) and n.target.id in results and not is_map(n.value, local_maps, ci_) and bad is None:
+                    bad = (n, "merges %s into the result" % norm(n.value)[:50])
+            elif isinstance(n, ast.Delete):
+                for t in n.targets:
+                    if isinstance(t, ast.Subscript) and isinstance(t.value, ast.Name) and t.value.id in results and bad is None:
+                        bad = (n, "deletes %s" % norm(t))
+            elif isinstance(n, ast.Call) and isinstance(n.func, ast.Attribute) and isinstance(n.func.value, ast.Name) and n.func.value.id in results:
+                if n.func.attr in MUT and bad is None:
+                    bad = (n, "calls %s" % norm(n)[:50])
+                if n.func.attr == "update" and not (len(n.args) == 1 and not n.keywords and is_map(n.args[0], local_maps, ci_)) and bad is None:
+                    bad = (n, "updates the result with %s" % (norm(n.args[0])[:50] if n.args else "keywords"))
+        rep.check(bad is None, rule, "result:%s.read_runtime_data" % famname, fn.loc(bad[0]) if bad else fn.loc(),
+                  "%s.read_runtime_data returns the decoded values untouched" % famname,
+                  bad="%s.read_runtime_data %s after decoding: that value does not come from the responses of this call, so it need not agree with the raw / derived values decoded next to it" % (famname, bad[1] if bad else ""))
 
 
 # ----------------------------------------------------------------------- R1
